@@ -25,7 +25,9 @@ Entries == {"Trace","Tracef","Debug","Debugf","Info","Infof","Warn","Warnf","Err
             "Panic","Panicf","Fatal","Fatalf","Record"}
 Shapes  == {"plain","closure","deferred","goroutine","methodvalue","generic","inlinable",
             "farline",     \* a call site whose source line number exceeds 65535
-            "twofileA", "twofileB"}   \* two statements of ONE function that lie in different source files
+            "twofileA", "twofileB",   \* two statements of ONE function that lie in different source files
+            "namedlog",               \* a call site in a user file that is itself called log.go
+            "colonpath"}              \* a call site whose file path contains colons
 Modes   == {"default","fast"}
 
 \* frames are numbered by their distance from the logging entry point:
@@ -59,6 +61,8 @@ Sites == [entry : Entries, shape : Shapes, skip : 0..MaxSkip]
 ValidSite(s) == /\ (s.entry = "Record" \/ s.skip = 1) /\ (s.skip = 1 \/ s.shape = "plain")
                 /\ (s.shape = "farline" => s.entry \in {"Info", "Debugf"})
                 /\ (s.shape \in {"twofileA", "twofileB"} => s.entry = "Info")
+                /\ (s.shape = "namedlog" => s.entry \in {"Info", "Record"})
+                /\ (s.shape = "colonpath" => s.entry \in {"Info", "Debugf"})
 
 Others == { [entry |-> "Info", shape |-> "plain", skip |-> 1],
             [entry |-> "Record", shape |-> "plain", skip |-> 2],
